@@ -320,3 +320,18 @@ Fixpoint tl_timeouts_ok (h : list ev) (pend : list (nat * (nat * nat))) : bool :
       | _ => tl_timeouts_ok r pend
       end
   end.
+
+(* ------------------------------------------------------------------ completeness of a recorded history
+   The driver ends every run by opening all gates and releasing whoever it can.  For SingleFlight,
+   LockedCalls, ResourceManager and Barrier nothing can then legitimately stay blocked: a call that
+   never returns did not "receive the result" / did not "execute" (e.g. a sharer or a later call
+   hanging on a flight whose executing call was unwound by a panic without deregistering it). *)
+Definition complete (h : list ev) : bool :=
+  Nat.eqb (count_occ_b (fun e => ekind_eqb (e_k e) KInv) h) (count_occ_b (fun e => ekind_eqb (e_k e) KRet) h).
+
+(* Pool: after the wind-down (every held resource has been put back) a Get can only still be blocked
+   if the slots were used up by create callbacks that panicked (p.created is incremented before
+   create is called and stays incremented) -- not because a panicking callback left p.lock locked *)
+Definition pool_final_ok (limit : nat) (h : list ev) : bool :=
+  complete h ||
+  Nat.leb limit (count_occ_b (fun e => ekind_eqb (e_k e) KBegin && Nat.eqb (e_op e) 3 && Nat.eqb (e_c e) 1) h).
